@@ -547,15 +547,16 @@ def rhe(x, k):
     return n
 
 
-def rounded_tuple(mol, input_geometry=None):
+def rounded_tuple(mol, input_geometry=None, input_masses=None):
     """`input_geometry`: for a molecule built from keyword arguments the identity is that of the coordinates handed in
-    (the constructor stores them already rounded AND zero-flipped)."""
+    (the constructor stores them already rounded AND zero-flipped).  `input_masses`: likewise the masses the caller
+    supplied (a validation that replaces a supplied mass by a nearby tabulated one must not hide a mass edit)."""
     conn = mol.connectivity
     geom = np.asarray(mol.geometry).ravel() if input_geometry is None else input_geometry
     bonds = None if conn is None else tuple(sorted((min(int(a), int(b)), max(int(a), int(b)), Fraction(float(o))) for a, b, o in conn))
     return (
         tuple(str(s) for s in mol.symbols),
-        tuple(rhe(x, 6) for x in np.asarray(mol.masses).ravel()),
+        tuple(rhe(x, 6) for x in (np.asarray(mol.masses).ravel() if input_masses is None else input_masses)),
         rhe(mol.molecular_charge, 4),
         int(mol.molecular_multiplicity),
         tuple(bool(x) for x in np.asarray(mol.real).ravel()),
@@ -1126,9 +1127,16 @@ def apply_recipe(mol, rec):
 def record_perturbations(rng, mol):
     """(family, {field: value}) — the property's perturbations applied to the STORED record of `mol`:
     noise <= 1e-10 on every coordinate (stored coordinates are multiples of 1e-8: far from a rounding boundary),
-    +-0 and |x| < 5e-9 on the coordinates stored as 0, -0.0 on zero charges."""
+    +-0 and |x| < 5e-9 on the coordinates stored as 0, -0.0 on zero charges, noise <= 3e-5 (either sign) on the total and the
+    fragment charges."""
     g = [float(x) for x in np.asarray(mol.geometry).ravel()]
     out = [("noise", {"geometry": [x + rng.uniform(-1e-10, 1e-10) for x in g]})]
+    # sub-rounding noise on the charges (rounding unit 1e-4; the scalar total goes through float_prep's scalar branch, the
+    # fragment charges through its array branch): both signs, down to 1e-12 and up to 3e-5 (< half a unit)
+    c0 = float(mol.molecular_charge)
+    out.append(("noise", {"molecular_charge": c0 + rng.choice([-1e-12, 1e-12, -1e-9, 1e-9, -3e-5, 3e-5, -2e-5])}))
+    fc0 = [float(x) for x in mol.fragment_charges]
+    out.append(("noise", {"fragment_charges": [x + rng.choice([-1e-9, 1e-9, -1e-12, 2e-5, -2e-5]) for x in fc0]}))
     zi = [i for i, x in enumerate(g) if x == 0.0]
     new = {}
     if zi:
@@ -1209,13 +1217,14 @@ class Member:
     def __init__(self, label, spec, route, mol, expect):
         self.label, self.spec, self.route, self.mol, self.expect = label, spec, route, mol, expect
         self.hash = mol.get_hash()
-        ig = None
+        ig = im = None
         if route == "kwargs" and isinstance(spec, dict) and "v" in spec:
             ig = geometry_of(spec)
+            im = masses_of(spec)
         elif route == "kwargs-literal" and isinstance(spec.get("kwargs"), dict):
             ig = [float(x) for x in spec["kwargs"]["geometry"]]
         self.rt = rounded_tuple(mol)  # the stored attributes
-        self.rt_in = rounded_tuple(mol, ig) if ig is not None else None  # identity of what was handed to the constructor
+        self.rt_in = rounded_tuple(mol, ig, im) if ig is not None else None  # identity of what was handed to the constructor
 
 
 CLAUSE_KIND = {
